@@ -37,8 +37,53 @@ fn ser(a: &dyn Aml) -> Vec<u8> {
 /// serialise an object of `kind` whose body contains a string child of `pad` characters
 /// (Field: `pad` reserved entries; BufferData: `pad` data bytes)
 pub fn sized(kind: usize, pad: usize) -> Vec<u8> {
+    sized_v(kind, pad, 0, false)
+}
+
+/// names for the named kinds: 1, 2, 3 and 10 segments, relative and rooted
+pub const NAME_VARIANTS: [&str; 8] = ["", "\\", "_SB_.", "\\_SB_.", "_SB_.PCI0.", "\\_SB_.PCI0.", "_SB_.PCI0.S001.S002.S003.S004.S005.S006.S007.", "\\_SB_.PCI0.S001.S002.S003.S004.S005.S006.S007."];
+pub fn is_named(kind: usize) -> bool {
+    matches!(SIZED_KINDS[kind], "Device" | "Scope" | "Scope::raw" | "Method" | "Field" | "PowerResource")
+}
+/// like `sized`, with the object's name drawn from NAME_VARIANTS and, when `direct` is set, a second child that
+/// hands a 64-bit constant to the sink in one call (instead of a buffered byte string)
+pub fn sized_v(kind: usize, pad: usize, name: usize, direct: bool) -> Vec<u8> {
     let s: String = "A".repeat(pad);
     let c: &dyn Aml = &s;
+    let q: u64 = 0x0001_0000_0000_0001;
+    let kids: Vec<&dyn Aml> = if direct { vec![c, &q] } else { vec![c] };
+    let nm = |leaf: &str| -> Path { Path::new(&format!("{}{}", NAME_VARIANTS[name % 8], leaf)) };
+    if name != 0 || direct {
+        match SIZED_KINDS[kind] {
+            "Package" => return ser(&Package::new(kids)),
+            "PackageBuilder" => {
+                let mut p = PackageBuilder::new();
+                for k in &kids {
+                    p.add_element(*k);
+                }
+                return ser(&p);
+            }
+            "ResourceTemplate" => return ser(&ResourceTemplate::new(kids)),
+            "Device" => return ser(&Device::new(nm("DEV0"), kids)),
+            "Scope" => return ser(&Scope::new(nm("SCP0"), kids)),
+            "Scope::raw" => {
+                let mut body = ser(c);
+                if direct {
+                    body.extend(ser(&q));
+                }
+                return Scope::raw(nm("SCP0"), body);
+            }
+            "Method" => return ser(&Method::new(nm("MTH0"), 0, false, kids)),
+            "Field" => {
+                return ser(&Field::new(nm("FLD0"), FieldAccessType::Any, FieldLockRule::NoLock, FieldUpdateRule::Preserve, (0..pad).map(|i| FieldEntry::Reserved(1 + (i % 7))).collect()))
+            }
+            "If" => return ser(&If::new(&q, kids)),
+            "Else" => return ser(&Else::new(kids)),
+            "While" => return ser(&While::new(&q, kids)),
+            "PowerResource" => return ser(&PowerResource::new(nm("PWR0"), 1, 2, kids)),
+            _ => {}
+        }
+    }
     match SIZED_KINDS[kind] {
         "Package" => ser(&Package::new(vec![c])),
         "PackageBuilder" => {
